@@ -83,6 +83,16 @@ def interior_model(ctx, eps_list=("1", "1/100", "1/1000000")):
     for eps in eps_list:
         m = _interior_model(ctx, eps)
         if m is not None:
+            if True:
+                # no uniform margin 1 (e.g. an opacity decided to lie strictly inside (0,1)): keep this
+                # margin and move as many inputs as possible to moderate, distinct values - geometry
+                # at the 1e-2 scale is below what float32 Skia resolves
+                try:
+                    sm = C.spread_model(ctx.assertions, None, ctx.inputs, eps=eps)
+                except Exception:
+                    sm = None
+                if sm is not None:
+                    return sm
             return m
     return None
 
